@@ -65,7 +65,7 @@ class Lock:
 
 
 # files of the development whose failure concerns only some properties (everything else concerns all of them)
-SRC_SCOPE = {'theories/Gen/Src': ['C02', 'C08', 'C09', 'C13', 'C15', 'C19'], 'theories/SrcTie_clock': ['C02', 'C15', 'C19'], 'theories/SrcTie_density': ['C02'], 'theories/SrcTie_window': ['C13'],
+SRC_SCOPE = {'theories/Gen/Src': ['C02', 'C06', 'C08', 'C09', 'C13', 'C15', 'C19'], 'theories/SrcTie_clock': ['C02', 'C06', 'C15', 'C19'], 'theories/SrcTie_anneal': ['C06'], 'theories/SrcTie_density': ['C02'], 'theories/SrcTie_window': ['C13'],
              'theories/SrcTie_pt': ['C09'], 'theories/SrcTie_chain': ['C08'], 'theories/Gen/SrcNum': ['C01', 'C03'], 'theories/SrcTie_mh': ['C01'],
              'theories/SrcTie_swap': ['C03'], 'theories/SrcSupport': ['C01', 'C03', 'C20'], 'theories/Gen/SrcAdapt': ['C13', 'C14'], 'theories/SrcTie_ss': ['C13', 'C14'],
              'theories/SrcTie_adapt': ['C13'], 'theories/Gen/SrcLadder': ['C17'], 'theories/SrcTie_ladder': ['C17'], 'theories/Gen/SrcCalls': ['C18'], 'theories/Gen/SrcRng': ['C04'], 'theories/Gen/SrcH5': ['C20'], 'theories/SrcTie_h5': ['C20'],
